@@ -27,6 +27,7 @@ from engine import norm as _norm
 from .sem import defs_texts, cond_want, expander, ctext, conds_at, guarded_values, norm_literal_guard, bind, stmt_of
 
 RULES = {
+    "C06.e": "refusals for too few samples test n < k strictly (n == k distinct points is enough); no private hook that scikit-learn's KMeans.fit/predict/transform call on self is overridden (the L2 delegation stays scikit-learn's code)",
     "C06.a": "norm='L2' branch of fit/predict/transform is exactly KMeans.<same method>(self, ...) with every shared parameter forwarded; dispatchers agree on the norm set",
     "C06.b": "distance primitives reachable from the L1 entry points use the Manhattan metric (guard/metric agreement)",
     "C06.c": "M-step is numpy.median(X[labels == i], axis=0); returned labels/inertia come from _labels_inertia on the returned centres",
@@ -282,6 +283,19 @@ def check_c(ck, repo):
         ck.unknown("C06.c", ll, "total shift of the centres", f"cannot identify the variable measuring how far the last M-step moved the centres: {shift_names}")
         return
     V = shift_names[0]
+    # the measure must vanish only when NO centre moved: a sum (or max) of absolute / squared differences
+    form_ok = False
+    for _, tx in defs_texts(repo, ll, V):
+        try:
+            e_ = ast.parse(tx, mode="eval").body
+        except SyntaxError:
+            continue
+        outer = e_.func.attr if isinstance(e_, ast.Call) and isinstance(e_.func, ast.Attribute) else None
+        if outer in ("sum", "max", "amax", "norm"):
+            inner_src = e_.args[0] if e_.args else (e_.func.value if not isinstance(e_.func.value, ast.Name) else None)
+            if inner_src is not None and any(isinstance(c_, ast.Call) and ast.unparse(c_.func).split(".")[-1] in ("abs", "absolute", "square", "fabs") and " - " in ast.unparse(c_) for c_ in ast.walk(inner_src)) or (inner_src is not None and "** 2" in ast.unparse(inner_src)) or outer == "norm":
+                form_ok = True
+    ck.verdict(form_ok, "C06.c", ll, f"{V} = sum/max of |old - new|", "the shift is zero only when no centre moved", f"{V} is not a sum (or max) of absolute or squared differences of the centres: shifts of opposite sign cancel, the iteration stops and the final E-step is skipped although the centres moved")
     n_final = n_skip = 0
     for p in [p for p in _paths(ll) if p.ret != _RAISE and isinstance(p.ret, ast.Tuple) and len(p.ret.elts) >= 3]:
         lt, it_, ct = [_ptext(e) for e in p.ret.elts[:3]]
@@ -372,10 +386,71 @@ def check_d2(ck, repo):
             ck.verdict(ok, "C06.d", cd, d, f"{left.id} has one entry per cluster id (length n_clusters)", f"{left.id} is not allocated with length n_clusters: clusters with the highest ids that received no point are missing from it, are never detected as empty, and keep an all-zero centre outside the data range")
 
 
+def check_e(ck, repo):
+    """(1) fit succeeds on any data with at least k points: every refusal for
+    "too few samples" on the L1 path tests n < k strictly; (2) the L2 delegation
+    is pure only if no private hook that KMeans' own fit/predict/transform call
+    on self is overridden by the subclass"""
+    from .sem import conds_at as _conds_at
+    from engine.guards import atoms as _atoms
+
+    ci = repo.cls(MOD, CLS)
+    roots = [m for n_, m in ci.methods.items() if n_ in ("fit", "_fit_l1")]
+    funcs = reachable_functions(repo, roots)
+    n_guards = 0
+    for f in funcs:
+        for r in own_nodes(f.node):
+            if not isinstance(r, ast.Raise):
+                continue
+            for t in [x for x in _parents(r) if isinstance(x, ast.If)]:
+                tt = src_of(t.test).replace(" ", "")
+                if not isinstance(t.test, ast.Compare) or len(t.test.ops) != 1:
+                    continue
+                l_, r_ = src_of(t.test.left), src_of(t.test.comparators[0])
+                samples = lambda x: "n_samples" in x or "_num_samples(" in x or x.endswith(".shape[0]")
+                clusters = lambda x: x in ("k", "n_clusters", "self.n_clusters")
+                if not ((samples(l_) and clusters(r_)) or (samples(r_) and clusters(l_))):
+                    continue
+                if not any(r is y for y in ast.walk(ast.Module(body=t.body, type_ignores=[]))):
+                    continue
+                n_guards += 1
+                op = type(t.test.ops[0]).__name__
+                strict = (samples(l_) and op == "Lt") or (samples(r_) and op == "Gt")
+                ck.verdict(strict, "C06.e", f, t.test, "too few samples means strictly fewer points than clusters", f"`{src_of(t.test)}` refuses data with exactly as many points as clusters: fit must succeed on any finite data containing at least k distinct points")
+    if n_guards == 0:
+        ck.holds("C06.e", ci.methods["fit"], "no refusal on the number of samples", "nothing refuses n >= k", nontrivial=False)
+    # private hooks of the parent
+    parent = "sklearn.cluster.KMeans"
+    hooks = set()
+    for mname in ("fit", "predict", "transform", "fit_transform", "fit_predict", "score"):
+        got = extsrc.find_method(parent, mname)
+        if got is None:
+            continue
+        work = [got[0]]
+        seen = set()
+        depth = 0
+        while work and depth < 3:
+            nxt = []
+            for fn in work:
+                for c in ast.walk(fn):
+                    if isinstance(c, ast.Call) and isinstance(c.func, ast.Attribute) and isinstance(c.func.value, ast.Name) and c.func.value.id == "self" and c.func.attr not in seen:
+                        seen.add(c.func.attr)
+                        g2 = extsrc.find_method(parent, c.func.attr)
+                        if g2 is not None:
+                            nxt.append(g2[0])
+            work = nxt
+            depth += 1
+        hooks |= seen
+    public = {"fit", "predict", "transform", "fit_transform", "fit_predict", "score", "get_params", "set_params"}
+    over = sorted(h for h in hooks if h in ci.methods and h not in public)
+    ck.verdict(not over, "C06.e", ci.methods["fit"], f"private hooks of KMeans overridden: {over}", "KMeans.fit/predict/transform called on self run scikit-learn's own helpers", f"{CLS} overrides {over}, which scikit-learn's KMeans methods call on self: with norm='L2' the 'delegation' runs this package's code, so results differ from KMeans")
+
+
 def run(ck):
     repo = ck.repo
     for k, v in RULES.items():
         ck.rule(k, v)
+    check_e(ck, repo)
     check_d2(ck, repo)
     check_a(ck, repo)
     check_b(ck, repo)
@@ -384,12 +459,16 @@ def run(ck):
     ck.require_count("C06.a", 5, "three dispatchers x (set, refuse, delegation)")
     ck.require_count("C06.b", 2, "pairwise_distances_argmin_min x2, manhattan_distances x2 (+ euclidean under L2 guards)")
     ck.require_count("C06.c", 3, "median axis/selection/store, final E-step centres/X/guard")
+    ck.require_count("C06.e", 2, "two sample-count guards, private hooks")
     ck.require_count("C06.d", 1, "_centers_dense median loop")
 
 
 _F = "mlinsights/mlmodel/kmeans_l1.py"
 _G = "mlinsights/mlmodel/_kmeans_022.py"
 WITNESSES = [
+    {"name": "init-refuses-n-equal-k", "file": _F, "rule": "C06.e", "old": "    elif n_samples < k:\n", "new": "    elif n_samples <= k:\n"},
+    {"name": "shift-signed-sum", "file": _F, "rule": "C06.c", "old": "center_shift_total = numpy.sum(numpy.abs(centers_old - centers).ravel())", "new": "center_shift_total = numpy.abs(numpy.sum(centers_old - centers))"},
+    {"name": "private-transform-hook-overridden", "file": _F, "rule": "C06.e", "old": "    def _transform_l1(self, X):", "new": "    def _transform(self, X):\n        return self._transform_l1(X)\n\n    def _transform_l1(self, X):"},
     {"name": "empty-cluster-unguarded", "file": _F, "rule": "C06.d", "old": "            if sub.shape[0] == 0:\n                # empty cluster: keeps the center it was relocated to\n                continue\n", "new": ""},
     {"name": "weights-bincount-no-minlength", "file": _F, "rule": "C06.d", "old": "    weight_in_cluster = numpy.zeros((n_clusters,), dtype=dtype)\n", "new": "    weight_in_cluster = numpy.bincount(labels, weights=sample_weight).astype(dtype)\n"},
     {"name": "l2-predict-not-delegated", "file": _F, "rule": "C06.a", "old": '        if self.norm == "L2":\n            return KMeans.predict(self, X)\n', "new": '        if self.norm == "L2":\n            return self._predict_l1(X, sample_weight=sample_weight)\n'},
